@@ -1,4 +1,5 @@
 import Rpcx.Model.Pool
+import Rpcx.Lemmas.Own
 /-
   C20 (byte pools): "Buffers handed out by the library's byte pools always have exactly the
   requested length" – theorems over the REGENERATED findPool / findPutPool.
@@ -200,5 +201,103 @@ theorem d13_witness :
 
 /-- the tie: findPool / findPutPool were translated from the current source this run -/
 theorem tie_pool : Gen.poolTieOk = true := by decide
+
+end Rpcx.Props.C20
+
+/-! ### ownership: what the pools' users may rely on
+  (model `Rpcx.Own`: a pool hands out an object it holds or a fresh one; the discipline – a site
+  writes only to what it owns and puts back only what it owns – is the assumption tied to the code by
+  the hold-and-recheck runs of `harness c20` and the write-site facts of C08) -/
+namespace Rpcx.Props.C20
+open Rpcx.Own
+
+def evOwner : Ev → Nat
+  | .get o _ => o
+  | .write o _ _ => o
+  | .put o _ => o
+
+/-- every event of the history respects the discipline in the state it happens in -/
+def okRun : St → List Ev → Prop
+  | _, [] => True
+  | s, e :: rest => ok s e ∧ okRun (step s e) rest
+
+theorem inv_run : ∀ (evs : List Ev) (s : St), Inv s → okRun s evs → Inv (evs.foldl step s) := by
+  intro evs
+  induction evs with
+  | nil => intro s hi _; exact hi
+  | cons e rest ih => intro s hi h; exact ih _ (inv_step s e hi h.1) h.2
+
+/-- **never two owners**: in every reachable state an object has at most one owner -/
+theorem exclusive (evs : List Ev) (h : okRun init evs) (b o1 o2 : Nat)
+    (h1 : (b, o1) ∈ (evs.foldl step init).owned) (h2 : (b, o2) ∈ (evs.foldl step init).owned) : o1 = o2 := by
+  have hi := inv_run evs init inv_init h
+  have := eq_of_nodup_map_fst hi.owned_nodup h1 h2 rfl
+  exact congrArg Prod.snd this
+
+/-- what `Get` hands out is in nobody's hands -/
+theorem get_fresh (s : St) (hi : Inv s) (o pick b o' : Nat) (hnew : (b, o) ∈ (step s (.get o pick)).owned)
+    (hold : (b, o') ∈ s.owned) : (b, o) ∈ s.owned := by
+  simp only [step] at hnew
+  have hbm : b ∈ s.owned.map (·.1) := List.mem_map.mpr ⟨(b, o'), hold, rfl⟩
+  cases hp : s.free[pick]? with
+  | some x =>
+    rw [hp] at hnew
+    simp only [List.mem_cons] at hnew
+    rcases hnew with h | h
+    · have : b = x := congrArg Prod.fst h
+      subst this
+      exact absurd hbm (hi.disjoint b (List.mem_of_getElem? hp))
+    · exact h
+  | none =>
+    rw [hp] at hnew
+    simp only [List.mem_cons] at hnew
+    rcases hnew with h | h
+    · have : b = s.next := congrArg Prod.fst h
+      subst this
+      exact absurd (hi.owned_lt _ hbm) (Nat.lt_irrefl _)
+    · exact h
+
+/-- **held bytes stay put**: while `o` owns `b`, no event of another owner that respects the
+    discipline changes the contents of `b` or takes it away -/
+theorem held_step (s : St) (hi : Inv s) (b o : Nat) (hown : (b, o) ∈ s.owned) (e : Ev) (hok : ok s e)
+    (hother : evOwner e ≠ o) : (step s e).mem b = s.mem b ∧ (b, o) ∈ (step s e).owned := by
+  cases e with
+  | get o' pick =>
+    simp only [step]
+    cases hp : s.free[pick]? <;> simp [hown]
+  | write o' b' v =>
+    have hne : b ≠ b' := by
+      intro e; subst e
+      have := eq_of_nodup_map_fst hi.owned_nodup hown hok rfl
+      exact hother (congrArg Prod.snd this).symm
+    simp [step, hne, hown]
+  | put o' b' =>
+    have hne : o ≠ o' := fun e => hother e.symm
+    constructor
+    · simp only [step]
+    · simp only [step]
+      apply List.mem_filter.mpr
+      refine ⟨hown, ?_⟩
+      simp [hne]
+
+theorem held_run : ∀ (evs : List Ev) (s : St), Inv s → ∀ (b o : Nat), (b, o) ∈ s.owned → okRun s evs →
+    (∀ e ∈ evs, evOwner e ≠ o) → (evs.foldl step s).mem b = s.mem b ∧ (b, o) ∈ (evs.foldl step s).owned := by
+  intro evs
+  induction evs with
+  | nil => intro s _ b o h _ _; exact ⟨rfl, h⟩
+  | cons e rest ih =>
+    intro s hi b o hown hok hoth
+    obtain ⟨h1, h2⟩ := held_step s hi b o hown e hok.1 (hoth e (by simp))
+    obtain ⟨h3, h4⟩ := ih (step s e) (inv_step s e hi hok.1) b o h2 hok.2 (fun e' he' => hoth e' (List.mem_cons_of_mem _ he'))
+    exact ⟨by rw [List.foldl_cons, h3, h1], h4⟩
+
+/-- non-vacuity: two owners, a buffer recycled from one to the other -/
+example : okRun init [.get 1 0, .write 1 0 7, .put 1 0, .get 2 0, .write 2 0 9, .get 1 0] := by
+  simp [okRun, ok, step, init]
+
+/-- the discipline matters: a put by a non-owner (a double put, a put of a buffer still in use)
+    is exactly what `ok` excludes – after it one object is in two hands -/
+example : (([.get 1 0, .put 1 0, .get 2 0, .put 1 0, .get 3 0] : List Ev).foldl step init).owned = [(0, 3), (0, 2)] := by
+  decide
 
 end Rpcx.Props.C20
